@@ -361,7 +361,7 @@ func init() {
 		c.CaseTy = "dcase"
 		c.Report = "report"
 		c.PerFile = 25
-		c.Rule = "one diamond with 1..3 commits (retries included), 0..1 cancellation and 1..4 split runs over 1..2 split ids (reruns of one id included), all started together and interleaved by a scheduler at every decision-relevant store access (read of the diamond state, read of the split state, listing of splits, each create-if-absent write), with a crash of the scheduled actor at one in 14 decisions, commits listing with page sizes 1, 2, 3, 5 or the default, and one actor in five meeting a failed read of the diamond's or a split's final descriptor; the final store is read by a fresh process; non-trivial = schedule in which at least one commit wrote a bundle or was refused, distinct by actors and decisions"
+		c.Rule = "one diamond with 1..3 commits (retries included), 0..1 cancellation and 1..4 split runs over 1..2 split ids (reruns of one id included), all started together and interleaved by a scheduler at every decision-relevant store access (read of the diamond state, read of the split state, listing of splits, reads of the splits listed, each create-if-absent write), with a crash of the scheduled actor at one in 14 decisions, commits listing with page sizes 1, 2, 3, 5 or the default, and one actor in five meeting a failed read of the diamond's or a split's final descriptor; the final store is read by a fresh process; non-trivial = schedule in which at least one commit wrote a bundle or was refused, distinct by actors and decisions"
 		emit := func(cs *c12Case) {
 			key := ""
 			for _, e := range cs.Events {
